@@ -124,7 +124,8 @@ POOLS = ['dyadic', 'dyadic3', 'decimal', 'thirds', 'tiny', 'equal', 'counts', 'r
 ALPHA_WORDS = {1: ['a', 'b', 'z', 'я', 'é'], 2: ['ab', 'zz', 'hi', 'да', 'ñu'], 3: ['cat', 'dog', 'abc', 'кот', 'été', 'fox'],
                4: ['pass', 'word', 'love', 'тест', 'ärger', 'blue'][:4] + ['grün'], 5: ['hello', 'world', 'admin', 'привет'[:5], 'señor']}
 DIGITS = {1: list('0123456789'), 2: ['12', '00', '99', '07', '42'], 3: ['123', '000', '007', '321'], 4: ['1234', '0000', '2580', '1111']}
-OTHER = {1: list('!@#$%^&*. '), 2: ['!!', '!@', '$$', ' !', '. ', '__'], 3: ['!!!', '!@#', ' - ', '...']}
+# U+FEFF (zero width no-break space / byte-order mark) is an ordinary 'other' character for the trainer; as the first value of a file it must not be taken for a BOM
+OTHER = {1: list('!@#$%^&*. ') + ['\ufeff', '\xa0'], 2: ['!!', '!@', '$$', ' !', '. ', '__', '\ufeff!', '!\ufeff'], 3: ['!!!', '!@#', ' - ', '...', '\ufeff..']}
 KEYB = {4: ['1qaz', 'qwer', '!qaz', 'zaq1'], 5: ['1qazx', 'qwert'], 6: ['1qaz2w']}
 YEARS = ['1999', '2000', '2012', '1984', '2023']
 CONTEXT = ['#1', '<3', ';p', 'Mr.', 'No.1', '*0*']
